@@ -236,6 +236,7 @@ class AlignReader:
         sorted_ = self.sorted_before(union, ss)
         # np.add.at(target, <searchsorted>, <q>.data)
         acc = False
+        addat = None
         for n in ast.walk(top):
             if isinstance(n, ast.Call) and _is_np(n.func, 'add', 'at') and len(n.args) == 3:
                 idx, _s = self.resolve(n.args[1], self.top_scope)
@@ -243,6 +244,8 @@ class AlignReader:
                         and isinstance(q_arg, ast.Name) and isinstance(n.args[2].value, ast.Name) \
                         and n.args[2].value.id == q_arg.id:
                     acc = True
+                    addat = n
+        res = self.result_construction(ss, addat, union, q_arg)
         # shape check
         shapes = any(isinstance(n, ast.If) and any(
             isinstance(r, ast.Raise) and r.exc is not None and 'ValueError' in ast.dump(r.exc)
@@ -262,7 +265,73 @@ class AlignReader:
                     tocsr = True
         return {'flat_key': k_poly, 'keys_are_int64': self.int64, 'union_indices_sorted': sorted_,
                 'values_accumulated_with_add_at': acc, 'shapes_checked': shapes,
-                'non_csr_inputs_converted_with_tocsr': tocsr}
+                'non_csr_inputs_converted_with_tocsr': tocsr, **res}
+
+    def result_construction(self, ss, addat, union, q_arg):
+        """the loop over the inputs and what is returned: data = np.zeros(len(union keys),
+        dtype=...), one csr_matrix((data, union.indices, union.indptr), shape=union.shape)
+        appended per input, in input order, the list returned; the dtype expression"""
+        top = self.top
+        dump = lambda x: ast.dump(x)   # noqa
+        out = {'data_zero_initialised_on_union': False, 'outputs_on_union_pattern': False,
+               'one_output_per_input_in_order': False, 'result_dtype': 'F64'}
+        if addat is None or not isinstance(addat.args[0], ast.Name) or not isinstance(q_arg, ast.Name):
+            self.err(top, 'np.add.at target')
+        data = addat.args[0].id
+        b = self.top_scope.lookup(data)
+        if b is None or b[0][0] != 'expr' or not isinstance(b[0][1], ast.Call) or \
+                not _is_np(b[0][1].func, 'zeros') or len(b[0][1].args) != 1:
+            self.err(addat, 'accumulation target is not a fresh np.zeros array')
+        z = b[0][1]
+        keys_name = ss.args[0]
+        ln = z.args[0]
+        if isinstance(ln, ast.Call) and isinstance(ln.func, ast.Name) and ln.func.id == 'len' and \
+                len(ln.args) == 1 and isinstance(keys_name, ast.Name) and \
+                dump(ln.args[0]) == dump(keys_name):
+            out['data_zero_initialised_on_union'] = True
+        kws = {k.arg: k.value for k in z.keywords}
+        if set(kws) - {'dtype'}:
+            self.err(z, 'np.zeros keywords')
+        if 'dtype' in kws:
+            dt = kws['dtype']
+            want = ast.parse(f'np.result_type({q_arg.id}.data.dtype, float)').body[0].value
+            want2 = ast.parse(f'np.result_type(float, {q_arg.id}.data.dtype)').body[0].value
+            if dump(dt) in (dump(want), dump(want2)):
+                out['result_dtype'] = 'result_type d F64'
+            elif dump(dt) in (dump(ast.parse('float').body[0].value), dump(ast.parse('np.float64').body[0].value)):
+                out['result_dtype'] = 'F64'
+            elif dump(dt) == dump(ast.parse(f'{q_arg.id}.data.dtype').body[0].value):
+                out['result_dtype'] = 'd'
+            else:
+                self.err(dt, 'dtype expression of the returned data')
+        # the loop
+        loops = [n for n in ast.walk(top) if isinstance(n, ast.For) and addat in list(ast.walk(n))]
+        if len(loops) != 1:
+            self.err(top, 'the placement is not inside exactly one for loop')
+        lp = loops[0]
+        if not (isinstance(lp.iter, ast.Name) and lp.iter.id == self.top_scope.params[0] and
+                isinstance(lp.target, ast.Name) and lp.target.id == q_arg.id and not lp.orelse):
+            self.err(lp, 'loop is not `for <m> in <the parameter>`')
+        apps = [st for st in lp.body if isinstance(st, ast.Expr) and isinstance(st.value, ast.Call) and
+                isinstance(st.value.func, ast.Attribute) and st.value.func.attr == 'append' and
+                isinstance(st.value.func.value, ast.Name) and len(st.value.args) == 1]
+        all_apps = [n for n in ast.walk(lp) if isinstance(n, ast.Call) and isinstance(n.func, ast.Attribute)
+                    and n.func.attr == 'append']
+        if len(apps) != 1 or len(all_apps) != 1:
+            self.err(lp, 'exactly one unconditional append per input expected')
+        lst = apps[0].value.func.value.id
+        lb = self.top_scope.lookup(lst)
+        rets = [n for n in ast.walk(top) if isinstance(n, ast.Return) and isinstance(n.value, ast.Name)
+                and n.value.id == lst]
+        if lb is not None and lb[0][0] == 'expr' and isinstance(lb[0][1], ast.List) and not lb[0][1].elts \
+                and len(rets) == 1 and rets[0].lineno > lp.lineno and \
+                not any(isinstance(n, (ast.Break, ast.Continue)) for n in ast.walk(lp)):
+            out['one_output_per_input_in_order'] = True
+        want = ast.parse(f'sp.csr_matrix(({data}, {union}.indices, {union}.indptr), shape={union}.shape)'
+                         ).body[0].value
+        if dump(apps[0].value.args[0]) == dump(want) and addat.lineno < apps[0].lineno:
+            out['outputs_on_union_pattern'] = True
+        return out
 
     def sorted_before(self, union, ss):
         """`union.sort_indices()` is executed before the keys of `union` are taken: either a
@@ -293,7 +362,8 @@ class AlignReader:
 
 
 FLAGS = ['keys_are_int64', 'union_indices_sorted', 'values_accumulated_with_add_at', 'shapes_checked',
-         'non_csr_inputs_converted_with_tocsr']
+         'non_csr_inputs_converted_with_tocsr', 'data_zero_initialised_on_union',
+         'outputs_on_union_pattern', 'one_output_per_input_in_order']
 
 
 def translate(repo):
@@ -311,6 +381,7 @@ def emit(cfg):
     out = ['(* GENERATED by translate/c17_align.py from femio/functions.py (align_nnz and the',
            '   helpers it calls) of the tree under test -- do not edit. *)',
            'From Coq Require Import ZArith.',
+           'From FV.C17 Require Import AlignDtype.',
            'Open Scope Z_scope.',
            '',
            '(* the flat key of a stored entry, as the source computes it: r = row of the entry',
@@ -321,6 +392,10 @@ def emit(cfg):
            '(* decisions read from the source *)']
     for f in FLAGS:
         out.append(f'Definition {f} : bool := {str(bool(cfg[f])).lower()}.')
+    out.append('')
+    out.append('(* dtype of the data of the returned matrices, from the dtype d of the input data')
+    out.append('   (np.zeros(..., dtype=<this expression>)) *)')
+    out.append(f'Definition result_dtype (d : dtype) : dtype := {cfg["result_dtype"]}.')
     return '\n'.join(out) + '\n'
 
 
